@@ -30,9 +30,9 @@ var c15Names = []string{"key", "down", "up", "move", "animate", "input"}
 
 func init() {
 	core.Register(&core.Check{
-		ID:    "C15",
-		Level: "exploration",
-		Rule: "handler programs: any subset of {key, down, up, move, animate, input} with parameter lists omitted, fully named or with _ in any position; bodies print the payload, update global counters/arrays/maps, use locals that shadow globals used by other handlers, read and update globals that carry the parameter names of other handlers (x, t, k, val), call shared functions, return early, panic; event sequences of length <= 30 with payload classes (NaN, infinities, empty and non-ASCII strings, markup), delivered through Evaluator.HandleEvent after Eval as pkg/wasm does. Two oracles: (a) metamorphic - the same evaluator running the program with handlers rewritten as procedures and events as calls; (b) the reference interpreter. distinct = distinct (program text, event sequence)",
+		ID:          "C15",
+		Level:       "exploration",
+		Rule:        "handler programs: any subset of {key, down, up, move, animate, input} with parameter lists omitted, fully named or with _ in any position; bodies print the payload, update global counters/arrays/maps, use locals that shadow globals used by other handlers, read and update globals that carry the parameter names of other handlers (x, t, k, val), call shared functions, return early, panic; event sequences of length <= 30 with payload classes (NaN, infinities, empty and non-ASCII strings, markup), delivered through Evaluator.HandleEvent after Eval as pkg/wasm does. Two oracles: (a) metamorphic - the same evaluator running the program with handlers rewritten as procedures and events as calls; (b) the reference interpreter. distinct = distinct (program text, event sequence)",
 		Assumptions: []string{"events for which the program declares no handler are not delivered (pkg/wasm registers only declared handlers)"},
 		NumCases: func(tier string) int {
 			if tier == "thorough" {
@@ -113,6 +113,21 @@ func c15Handler(c *core.Ctx, name string, id int) gen.Handler {
 		}
 	}
 	body = append(body, printCall(entry...))
+	for _, p := range named {
+		if p.T.K != gen.Str {
+			continue
+		}
+		// the characters of a string payload, read piecewise
+		pv := vr(p.Name, tStr)
+		acc := "acc_" + p.Name
+		body = append(body,
+			gen.If{Conds: []gen.Expr{gen.Binary{Op: ">", L: call("len", tNum, toAny(pv)), R: nl(0), T: tBool}}, Blocks: [][]gen.Stmt{{
+				printCall(sl("chars"), call("repr", tStr, toAny(gen.Index{X: pv, I: nl(0), T: tStr})), call("repr", tStr, toAny(gen.Index{X: pv, I: nl(-1), T: tStr})), call("repr", tStr, toAny(gen.Slice{X: pv, Lo: nl(1)}))),
+			}}},
+			gen.Decl{Name: acc, T: tStr, Init: sl("")},
+			gen.For{Var: "ch_" + p.Name, VarT: tStr, Over: pv, Body: []gen.Stmt{gen.Assign{Target: vr(acc, tStr), Val: gen.Binary{Op: "+", L: vr("ch_"+p.Name, tStr), R: vr(acc, tStr), T: tStr}}}},
+			printCall(sl("reversed"), call("repr", tStr, toAny(vr(acc, tStr))), call("len", tNum, toAny(pv))))
+	}
 	// a local that must start afresh on every delivery
 	body = append(body, gen.Decl{Name: "loc", T: tNum, Init: nl(0)}, gen.Assign{Target: vr("loc", tNum), Val: gen.Binary{Op: "+", L: vr("loc", tNum), R: nl(1), T: tNum}}, printCall(sl("loc"), vr("loc", tNum)))
 	shadowed := false
